@@ -158,7 +158,7 @@ class SeqEngine(E.Engine):
 
     def valid_quick(self, st, f):
         try:
-            return self.valid(st, f)
+            return self.valid(st, f, full_timeout_ms=300)
         except Exception:
             return False
 
